@@ -229,7 +229,12 @@ MAIN_SURVIVES = ("finish", "return", "cond-raise", "cond-raise-plain")
 KNOWN_IMMEDIATE = {
     "child-finish": ["await immchild"],
     "child-raise": ["await immchild", '$z = 1 + "a"'],
+    # Open known finding C10-F41: the FIRST statement of an activated flow sends a malformed internal event and the flow then waits;
+    # the event is processed after the flow reached its wait (status STARTED), fails the flow, the flow is restarted and sends it again
+    "first-bad-internal-event": ['send StartFlow(flow_id="immchild")', "match EvC()"],
+    "first-bad-internal-event-stop": ['send StopFlow(flow_instance_uid=["x"])', "match EvC()"],
 }
+KNOWN_IMMEDIATE_FINDING = {"child-finish": "C10-F18", "child-raise": "C10-F18", "first-bad-internal-event": "C10-F41", "first-bad-internal-event-stop": "C10-F41"}
 
 
 # Fault kinds that break the statement on the UNCHANGED tree (reported to the coordinator with repro files, not yet listed in
@@ -242,8 +247,10 @@ PENDING_FAULTS = ()  # (all of them are generated since the findings C10-F34 .. 
 
 
 def known(case, violation):
-    if violation.kind in ("non-termination", "hang") and any(k in KNOWN_IMMEDIATE for k in case.get("imm", [])):
-        return "C10-F18"
+    if violation.kind in ("non-termination", "hang"):
+        for k in case.get("imm", []):
+            if k in KNOWN_IMMEDIATE:
+                return KNOWN_IMMEDIATE_FINDING[k]
     return None
 
 
